@@ -364,6 +364,23 @@ def stepMain (ds : DState) (toks : List String) : DState × String :=
           let bytes := f.bytes.extract 0 off ++ f.bytes.extract (off + n) f.bytes.size
           ({ ds with st := { s with world := s.world.set d { dir with data := setFile dir.data id { bytes := bytes, synced := min f.synced bytes.size } } } }, "ok")
       else (ds, "?")
+  | ["cpblk", d, file, o1, o2, n] =>
+    match s.world.get d with
+    | none => (ds, "err:open")
+    | some dir =>
+      if file.endsWith ".data" then
+        let id := (file.take 9).toString.toNat!
+        match getFile dir.data id with
+        | none => (ds, "err:open")
+        | some f =>
+          let o1 := o1.toNat!
+          let o2 := o2.toNat!
+          let n := n.toNat!
+          if o1 + n > f.bytes.size ∨ o2 + n > f.bytes.size then (ds, "err:range") else
+          let b := f.bytes
+          let bytes := b.extract 0 o2 ++ b.extract o1 (o1 + n) ++ b.extract (o2 + n) b.size
+          ({ ds with st := { s with world := s.world.set d { dir with data := setFile dir.data id { f with bytes := bytes } } } }, "ok")
+      else (ds, "?")
   | ["swapblk", d, file, o1, o2, n] =>
     match s.world.get d with
     | none => (ds, "err:open")
